@@ -460,7 +460,7 @@ func CodecRecord(outPath string, seed int64) error {
 	}
 	defer wr.Close()
 	w := newCodecWorld()
-	msgs := []string{"", "plain note", "line1\nline2\r\nline3", beginM + "\nZm9v\n" + endM, "-----BEGIN PGP SIGNATURE-----\nabc", "trailing space  \n\n", "\x00\x01\xff binary", "skip: true\nentryID: " + w.hashes[1], strings.Repeat("long message ", 40)}
+	msgs := []string{"", "plain note", "\n", "\r\n", " ", "\t \n", "  leading and trailing  ", "line1\nline2\r\nline3", beginM + "\nZm9v\n" + endM, "-----BEGIN PGP SIGNATURE-----\nabc", "trailing space  \n\n", "\x00\x01\xff binary", "skip: true\nentryID: " + w.hashes[1], strings.Repeat("long message ", 40)}
 	id := 0
 	hash := func(v int) githash.Hash { h, _ := githash.NewHash(w.hashes[v]); return h }
 	prep := func(num int) (*memstore.Store, *memstore.Handle) {
